@@ -83,8 +83,10 @@ def apply(items, muts, rng):
         for i, k in enumerate(keys):
             if i > 0 and rng.random() < 0.3 and keys[i - 1][0] == k[0]:
                 prev = remap.get(keys[i - 1], keys[i - 1])
-                nxt = {"": "A", "A": "B", "B": "C", "C": "D"}.get(prev[2], "Z")
-                remap[k] = (k[0], prev[1], nxt)
+                letters = "ABCDEFGHIJKLMNOPQRSTUVWXY"
+                nxt = "A" if prev[2] == "" else letters[letters.index(prev[2]) + 1] if prev[2] in letters[:-1] else None
+                if nxt is not None:          # never two residues with one identity (chain, number, code)
+                    remap[k] = (k[0], prev[1], nxt)
         for it in items:
             if isinstance(it, dict):
                 k = (it["chain"], it["resi"], it["icode"])
